@@ -1,0 +1,13 @@
+//go:build verif
+
+package constructor
+
+// Exported wrappers around the unexported directive recognisers, for the verification harness only
+// (compiled only with -tags verif; no behaviour change).
+
+func VerifParseGetSetComment(doc string) (bool, bool)   { return parseGetSetComment(doc) }
+func VerifParseNewComment(doc string) bool              { return parseNewComment(doc) }
+func VerifParseDefComment(doc string) (string, bool)    { return parseDefComment(doc) }
+func VerifParseGetterSetterDoc(doc string) (bool, bool) { return parseGetterSetterDoc(doc) }
+func VerifParseJSONTag(tag string) string               { return parseJSONTag(tag) }
+func VerifParseNewTag(tag string) string                { return parseNewTag(tag) }
